@@ -21,17 +21,19 @@ type c16Case struct {
 }
 
 var scaleFns = map[string]func(h, l signal.BitDepth) *big.Int{
-	"int8":    func(h, l signal.BitDepth) *big.Int { return big.NewInt(int64(signal.Scale[int8](h, l))) },
-	"int16":   func(h, l signal.BitDepth) *big.Int { return big.NewInt(int64(signal.Scale[int16](h, l))) },
-	"int32":   func(h, l signal.BitDepth) *big.Int { return big.NewInt(int64(signal.Scale[int32](h, l))) },
-	"int64":   func(h, l signal.BitDepth) *big.Int { return big.NewInt(signal.Scale[int64](h, l)) },
-	"int":     func(h, l signal.BitDepth) *big.Int { return big.NewInt(int64(signal.Scale[int](h, l))) },
-	"uint8":   func(h, l signal.BitDepth) *big.Int { return new(big.Int).SetUint64(uint64(signal.Scale[uint8](h, l))) },
-	"uint16":  func(h, l signal.BitDepth) *big.Int { return new(big.Int).SetUint64(uint64(signal.Scale[uint16](h, l))) },
-	"uint32":  func(h, l signal.BitDepth) *big.Int { return new(big.Int).SetUint64(uint64(signal.Scale[uint32](h, l))) },
-	"uint64":  func(h, l signal.BitDepth) *big.Int { return new(big.Int).SetUint64(signal.Scale[uint64](h, l)) },
-	"uint":    func(h, l signal.BitDepth) *big.Int { return new(big.Int).SetUint64(uint64(signal.Scale[uint](h, l))) },
-	"uintptr": func(h, l signal.BitDepth) *big.Int { return new(big.Int).SetUint64(uint64(signal.Scale[uintptr](h, l))) },
+	"int8":   func(h, l signal.BitDepth) *big.Int { return big.NewInt(int64(signal.Scale[int8](h, l))) },
+	"int16":  func(h, l signal.BitDepth) *big.Int { return big.NewInt(int64(signal.Scale[int16](h, l))) },
+	"int32":  func(h, l signal.BitDepth) *big.Int { return big.NewInt(int64(signal.Scale[int32](h, l))) },
+	"int64":  func(h, l signal.BitDepth) *big.Int { return big.NewInt(signal.Scale[int64](h, l)) },
+	"int":    func(h, l signal.BitDepth) *big.Int { return big.NewInt(int64(signal.Scale[int](h, l))) },
+	"uint8":  func(h, l signal.BitDepth) *big.Int { return new(big.Int).SetUint64(uint64(signal.Scale[uint8](h, l))) },
+	"uint16": func(h, l signal.BitDepth) *big.Int { return new(big.Int).SetUint64(uint64(signal.Scale[uint16](h, l))) },
+	"uint32": func(h, l signal.BitDepth) *big.Int { return new(big.Int).SetUint64(uint64(signal.Scale[uint32](h, l))) },
+	"uint64": func(h, l signal.BitDepth) *big.Int { return new(big.Int).SetUint64(signal.Scale[uint64](h, l)) },
+	"uint":   func(h, l signal.BitDepth) *big.Int { return new(big.Int).SetUint64(uint64(signal.Scale[uint](h, l))) },
+	"uintptr": func(h, l signal.BitDepth) *big.Int {
+		return new(big.Int).SetUint64(uint64(signal.Scale[uintptr](h, l)))
+	},
 }
 
 var scaleTypes = []struct {
